@@ -266,7 +266,7 @@ def new_stats():
     from collections import Counter
     return {'evaluations': 0, 'ops': 0, 'points': 0, 'op_kinds': Counter(), 'branches': Counter(), 'impl_errors': {},
             'streams': Counter(), 'nontrivial': set(), 'shrinks': 0, 'monitor_flags': Counter(), 'judge_clauses': Counter(),
-            'approx_values': 0, 'max_rel_err': Fraction(0), '_disturb': False}
+            'approx_values': 0, 'max_rel_err': Fraction(0), 'max_rel_err_stream': {}, '_disturb': False}
 
 
 def run_impl(case, stats):
@@ -277,11 +277,13 @@ def run_impl(case, stats):
     stats['_disturb'] = False
     p0 = stats['points']
     for op in case['ops']:
+        if stats.get('hung', 0) >= 2: break      # the implementation hangs: reported once, the rest of the run is skipped
         try:
             with watchdog(20):
                 o, fl = impl.apply(op, stats)
         except Hang:
             o, fl = 'res=Hang', set()
+            stats['hung'] = stats.get('hung', 0) + 1
             stats['impl_errors']['Hang'] = stats['impl_errors'].get('Hang', 0) + 1
         lines.append(f'{op_line(case, vs, op)} | {o}'); obs.append(o); flags.append(fl)
         if o == 'res=Hang': break
@@ -289,7 +291,7 @@ def run_impl(case, stats):
     return lines, obs, flags, nontrivial
 
 
-def same(model, impl, stats=None):
+def same(model, impl, stats=None, stream='main'):
     """ structural equality + numeric closeness (exact arithmetic) of two observations """
     if model == impl: return True
     ms, is_ = NUM.split(model), NUM.split(impl)
@@ -301,7 +303,9 @@ def same(model, impl, stats=None):
         except (ValueError, ZeroDivisionError): return False
         if abs(fa - fb) > abs(fa) * TOL: return False
         if stats is not None and fa:
-            stats['max_rel_err'] = max(stats['max_rel_err'], abs(fa - fb) / abs(fa))
+            e = abs(fa - fb) / abs(fa)
+            stats['max_rel_err'] = max(stats['max_rel_err'], e)
+            stats['max_rel_err_stream'][stream] = max(stats['max_rel_err_stream'].get(stream, 0), e)
     return True
 
 
@@ -343,7 +347,7 @@ def judge_batch(chk, cases, stats):
                 findings.append((f'C20:{name}', f'clause "{name}" violated ({c.split("@", 1)[1] if "@" in c else ""}) after '
                                  f'{op_line(case, scale_of(case), op)[:160]}: implementation reported {i_obs[:300]}',
                                  dict(replay, clause=name, all_clauses=clauses)))
-            if not same(m_obs, i_obs, stats):
+            if not same(m_obs, i_obs, stats, case.get('stream', 'main')):
                 diffs.append(replay); break
         yield case, obs, findings, diffs, nt
 
@@ -356,7 +360,7 @@ def run_cases(chk, cases, stats, do_shrink=True):
         for d in diffs: chk.disagree('Stats', d)
         for f in findings:
             base = f[0]; small = f[2]['ops']
-            if do_shrink and stats['shrinks'] < 12 and base not in chk.known and base not in chk.rejections:
+            if do_shrink and stats['shrinks'] < 12 and base not in chk.known and base not in chk.rejections and base != 'C20:hang':
                 stats['shrinks'] += 1
                 scratch = new_stats()
                 def still(cand):
@@ -553,6 +557,7 @@ def finish_coverage(chk, stats, samples, exhaustive_n=0):
         'float_monitor_flags': dict(stats['monitor_flags']),
         'float_values_compared_as_exact_rationals': stats['approx_values'],
         'relative_tolerance': '2^-40', 'max_relative_error_seen': float(stats['max_rel_err']),
+        'max_relative_error_seen_by_stream': {k: float(v) for k, v in sorted(stats['max_rel_err_stream'].items())},
         'traces_validated_against_impl': stats['evaluations'], 'exhaustive': False,
         'exhaustive_small_scope_cases': exhaustive_n})
     chk.trusted += ['harness/c20.py (drives the real compilers; canonical printer; Fraction(float) conversion; tolerance compare)',
@@ -570,7 +575,9 @@ def finish_coverage(chk, stats, samples, exhaustive_n=0):
 def run(chk):
     quick = chk.tier == 'quick'
     stats = new_stats()
-    chk.prove('Supv.Props.C20', extra_targets=['drv_c20'])
+    ok = chk.prove('Supv.Props.C20', extra_targets=['drv_c20'])
+    if ok and not quick:
+        chk.leanchecker(['Supv.Model.Stats', 'Supv.Lemmas.Stats', 'Supv.Props.C20'])
     run_cases(chk, load_corpus(), stats)
     seeds = [chk.seed] if quick else derive_seeds(chk.seed, 8)
     per_seed = 1500 if quick else 5000
@@ -597,14 +604,51 @@ def run(chk):
         ex = list(exhaustive_cases(3))
         run_cases(chk, ex, stats)
     finish_coverage(chk, stats, samples, nex)
+    if not quick:
+        chk.coverage['anchor_code_coverage'] = coverage_of_anchor(chk.seed)
+
+
+def coverage_of_anchor(seed, n=400):
+    """ thorough tier: line / branch coverage of supvisors/statscompiler.py when the generated cases are run on the
+        implementation (a separate process under coverage.py, so that the module's import is measured too) """
+    import subprocess, tempfile
+    repo = os.environ.get('SUPVISORS_REPO', '/repo')
+    target = os.path.join(repo, 'supvisors', 'statscompiler.py')
+    with tempfile.TemporaryDirectory(dir='/var/tmp') as d:
+        env = dict(os.environ, COVERAGE_FILE=os.path.join(d, 'cov'))
+        r = subprocess.run([sys.executable, '-m', 'coverage', 'run', '--branch', f'--include={target}', os.path.abspath(__file__),
+                            '--cov-probe', str(seed), str(n)], env=env, capture_output=True, text=True, timeout=900,
+                           cwd=os.path.dirname(os.path.abspath(__file__)))
+        if r.returncode: return {'error': (r.stdout + r.stderr)[-400:]}
+        out = os.path.join(d, 'cov.json')
+        r = subprocess.run([sys.executable, '-m', 'coverage', 'json', '-o', out], env=env, capture_output=True, text=True, timeout=300)
+        if r.returncode: return {'error': (r.stdout + r.stderr)[-400:]}
+        f = next(iter(json.load(open(out))['files'].values()))
+        s = f['summary']
+        return {'file': 'supvisors/statscompiler.py', 'cases': n, 'statements': s['num_statements'], 'missing_lines': f['missing_lines'],
+                'branches': s.get('num_branches'), 'covered_branches': s.get('covered_branches'),
+                'percent_covered': round(s['percent_covered'], 1)}
 
 
 def replay(chk, path):
+    """ re-runs one stored case on the real code (and on the model), prints what the implementation answered """
     c = json.load(open(path))
     case = c.get('replay', c)
     case = {k: case[k] for k in ('stream', 'tps', 'depth', 'irix', 'periods', 'ops') if k in case}
     stats = new_stats()
+    vs = scale_of(case)
+    _, obs, _, _ = run_impl(case, new_stats())
+    for o, i_obs in list(zip(case['ops'], obs[1:]))[-4:]:
+        print('  op  :', op_line(case, vs, o)[:220]); print('  impl:', i_obs[:400])
+        for m in re.finditer(r'~(-?\d+)/(\d+)', i_obs):
+            v = Fraction(int(m.group(1)), int(m.group(2)))
+            if v > 100 or v < 0: print(f'        value {float(v)!r} = {m.group(0)[1:]}')
     run_cases(chk, [case], stats, do_shrink=False)
-    for o in case['ops'][-3:]: print('  op:', op_line(case, scale_of(case), o)[:200])
     finish_coverage(chk, stats, [{'settings': {k: v for k, v in case.items() if k != 'ops'}, 'ops': len(case['ops'])}])
     chk.coverage['rule'] = 'replay'
+
+
+if __name__ == '__main__' and len(sys.argv) == 4 and sys.argv[1] == '--cov-probe':
+    _rnd = random.Random(int(sys.argv[2])); _st = new_stats()
+    for _ in range(int(sys.argv[3])):
+        run_impl(gen_case(_rnd, pick_stream(_rnd)), _st)
